@@ -25,7 +25,7 @@ package router_identity
 //@   ensures @C01 @C03 @C09 (err == nil) == (keys_and_cert.KacAccepts(data) && PermittedRI(keys_and_cert.WireSigType(data), keys_and_cert.WireCryptoType(data)))
 //@   ensures @C03 err == nil ==> suffix(remainder, data, keys_and_cert.KacExtent(data))
 //@   ensures @C09 @C01 err == nil ==> RIInv(ri)
-//@   ensures @C01 err == nil ==> seqeq(keys_and_cert.KacWire(ri.KeysAndCert), data[:keys_and_cert.KacExtent(data)])
+//@   ensures @C01 err == nil ==> keys_and_cert.KacMatches(ri.KeysAndCert, data)
 //@   ensures @C09 err == nil ==> RISig(ri) == keys_and_cert.WireSigType(data) && RICrypto(ri) == keys_and_cert.WireCryptoType(data)
 //@   ensures err != nil ==> ri == nil
 //@   modifies nothing
@@ -33,7 +33,7 @@ package router_identity
 //@ contract NewRouterIdentityFromBytes(data []byte) (ri *RouterIdentity, remainder []byte, err error)
 //@   ensures @C19 @C09 (err == nil) == (keys_and_cert.KacAccepts(data) && PermittedRI(keys_and_cert.WireSigType(data), keys_and_cert.WireCryptoType(data)))
 //@   ensures @C19 err == nil ==> suffix(remainder, data, keys_and_cert.KacExtent(data))
-//@   ensures @C19 @C09 err == nil ==> RIInv(ri) && seqeq(keys_and_cert.KacWire(ri.KeysAndCert), data[:keys_and_cert.KacExtent(data)])
+//@   ensures @C19 @C09 err == nil ==> RIInv(ri) && keys_and_cert.KacMatches(ri.KeysAndCert, data)
 //@   ensures err != nil ==> ri == nil
 //@   modifies nothing
 
